@@ -71,6 +71,15 @@ INFO = {
     "C10-4": ("BacktraceStorage::process() declared noexcept", "a sink whose write_log throws for a replayed backtrace statement: std::terminate (on the tree before fix F22; the F22 fix catches the exception inside the callback, so the change no longer manifests on the current tree)"),
     "C12-4": ("TransitEvent move assignment forgets dynamic_log_level (same change as seed C16, found independently for C12)", "dynamic-level or runtime-metadata statement waiting in the transit buffer when it grows; pattern with %(log_level) / %(log_level_short_code)"),
     "C16-4": ("apply_all_filters reloads the backend's filter copy only when try_lock() succeeds", "a statement rejected by a just-attached filter is evaluated while another thread is inside add_filter() on the same sink"),
+    "C04-4": ("_apply_runtime_metadata() searches the separator with find_first_of (any ONE of the three bytes)", "LOG_RUNTIME_METADATA statement without named args whose formatted text contains a byte 0x01, 0x02 or 0x03"),
+    "C07-4": ("SignalHandlerContext::get_logger() loses the fallback to the first valid logger when the configured name does not resolve", "SignalHandlerOptions::logger set to a name that is not a valid logger when a handled signal arrives: no flush, no exit/re-raise"),
+    "C08-4": ("context cache rebuild skips contexts that are already invalid and empty (same change as C20-2, found independently for C08)", "a thread whose statements were all refused (or already drained) exits before a cache rebuild: its drop count is never reported"),
+    "C09-4": ("hard-limit test moved to the top of the read loop with 'return' instead of 'break': commit_read() skipped", "small transit_events_hard_limit reached exactly by the record that drains the queue, then a statement close to the capacity"),
+    "C14-4": ("_file_size accounting moved into _size_rotation(), which is not called for the statement that triggered a time rotation", "sink with size AND time rotation: the first statement of a file opened by a time rotation is not counted"),
+    "C17-4": ("_cleanup_invalidated_loggers wakes every remove_logger_blocking waiter whose name get_logger() no longer finds", "two removals pending in one pass, the later (blocking) one deferred by a statement enqueued between the per-logger queue checks"),
+    "C18-4": ("backtrace capacity handed to the backend through an atomic on the logger instead of inside the InitBacktrace message", "a second init_backtrace() with another capacity before the backend processed the first InitBacktrace event"),
+    "C19-4": ("joined named-arg values kept in a member buffer that is cleared after use, not before", "a named statement whose SECOND or later value fails to format, then the next named statement (any logger / thread)"),
+    "C20-4": ("counter of invalid thread contexts replaced by a flag that every removal clears", "a reclaim scan that removes one context and leaves another exited thread's context behind (backlog at a flush-time scan, or exit during the scan)"),
     "C17-2": ("SinkManager::_insert_sink uses upper_bound", "a sink expires without a logger removal, the same sink name is created again and looked up before any logger is removed"),
 }
 for name, (change, needs) in INFO.items():
